@@ -88,17 +88,11 @@ ParseFloatStr(cs0) ==
                      ELSE IF ZCmp(k, ZFromInt(-400 - Len(ip \o fp))) < 0 THEN FZero(sgn)
                      ELSE FFromDecimal(sgn, m, ZToInt(k))]
 
-\* dec("..."): only the plain form  [+-]?[0-9]+(\.[0-9]+)?  is modelled (plus evidently invalid strings)
+\* dec("..."): the library's reader (Decimal.tla, DecFromStr).  When that fails and the text contains e or E the
+\* library tries a scientific-notation reader, which is not modelled.
 ParseDecStr(cs) ==
-  LET body == Unsigned(cs)
-      di == IndexOfCP(body, 46)
-      ip == IF di = 0 THEN body ELSE SubSeq(body, 1, di - 1)
-      fp == IF di = 0 THEN <<>> ELSE SubSeq(body, di + 1, Len(body))
-  IN IF AllDigits(ip) /\ (di = 0 \/ AllDigits(fp))
-     THEN LET r == DFit(SignOf(cs), MFromDigits(Digits(ip \o fp)), Len(fp)) IN
-          IF r.k = "overflow" THEN Invalid ELSE r
-     ELSE IF \A i \in 1..Len(cs) : ~IsDigit(cs[i]) THEN Invalid     \* no digit at all: never a number
-     ELSE UnmodelledStr
+  LET r == DecFromStr(cs) IN
+  IF r.k = "invalid" /\ (\E i \in 1..Len(cs) : cs[i] = 101 \/ cs[i] = 69) THEN UnmodelledStr ELSE r
 
 \* datetime("..."): the relaxed RFC 3339 reader of the date-time library, transcribed.
 \*   [ws] [+-]YEAR [ws] - [ws] MONTH [ws] - [ws] DAY  (T | t | one space)  [ws] HOUR [ws] : [ws] MINUTE [ws] : [ws] SECOND
